@@ -8,6 +8,7 @@ import (
 	"hash/fnv"
 	"os"
 	"regexp"
+	"runtime"
 	"runtime/debug"
 	"sort"
 	"strings"
@@ -307,7 +308,12 @@ func Execute(p *Profile, tier string, seed uint64, t *tape.Tape, index int, hang
 				}
 			}
 		}()
-		r.Logf("run profile=%s seed=%d tier=%s sweep=%d", p.Name, seed, tier, r.SweepCase)
+		// GOMAXPROCS is part of the simulated configuration (it decides
+		// gopar's default goroutine count), so it comes from the tape
+		// and not from the environment
+		gmp := []int{4, 1, 2, 8, 16}[t.Draw(5, "gomaxprocs")]
+		runtime.GOMAXPROCS(gmp)
+		r.Logf("run profile=%s seed=%d tier=%s sweep=%d gomaxprocs=%d", p.Name, seed, tier, r.SweepCase, gmp)
 		p.Fn(r)
 	}()
 	select {
